@@ -23,6 +23,7 @@ import (
 	"fmt"
 	"io/fs"
 	"path"
+	"sort"
 	"strings"
 	"testing"
 	"time"
@@ -105,10 +106,23 @@ type Case struct {
 	// layout key.
 	LayoutVia string `json:"layout_via,omitempty"`
 
+	// Steps (optional): a history on ONE long-lived engine instead of a single render on a
+	// fresh one: "render" renders the page, "remove" deletes the layout file Path from the
+	// filesystem, "restore" writes it back as described (with a newer modification time). Every
+	// render is judged by the reference walker over the files present at that moment: which
+	// files exist is a fact about the filesystem now, not about what the engine has seen before.
+	Steps []Step `json:"steps,omitempty"`
+
 	// The filesystem the engine is given. The file set above is the UNION the engine must see;
 	// how it is physically stored must not matter.
 	FS      string   `json:"fs,omitempty"`      // "" = memfs (Open+Stat+ReadDir); "openonly" = every fs.FS is wrapped so that only Open is available
 	Overlay *Overlay `json:"overlay,omitempty"` // nil = one filesystem; otherwise vuego.NewOverlayFS(layer0, layer1...)
+}
+
+// Step is one operation of a history.
+type Step struct {
+	Op   string `json:"op"` // "render" | "remove" | "restore"
+	Path string `json:"path,omitempty"`
 }
 
 // Overlay distributes the file set over the layers of a vuego.OverlayFS (upper first). The
@@ -187,7 +201,7 @@ k: k-stale
 `
 
 // mount builds the engine's filesystem from the description.
-func mount(c Case) (fs.FS, []*memfs.FS) {
+func mount(c Case) (fs.FS, []*memfs.FS, []*memfs.FS, map[string]int) {
 	nonNil, at, total := layering(c)
 	layers := make([]*memfs.FS, total)
 	for _, i := range nonNil {
@@ -220,10 +234,10 @@ func mount(c Case) (fs.FS, []*memfs.FS) {
 		}
 	}
 	if c.Overlay == nil {
-		return stack[0], all
+		return stack[0], all, layers, at
 	}
 	var ov fs.FS = vuego.NewOverlayFS(stack[0], stack[1:]...)
-	return ov, all
+	return ov, all, layers, at
 }
 
 // nonString lists layout names that YAML reads as non-string scalars when written plainly
@@ -501,8 +515,27 @@ type result struct {
 	overflow bool // the byte budget of the destination writer was exhausted
 }
 
-func execute(c Case) (res result) {
-	m, layers := mount(c)
+// engine is one vuego engine over the mounted file set of a case.
+type engine struct {
+	root  vuego.Template
+	mems  []*memfs.FS    // the non-nil layers
+	byIdx []*memfs.FS    // layers by index (nil entries for nil layers)
+	at    map[string]int // path -> layer index
+}
+
+func newEngine(c Case) *engine {
+	fsys, mems, byIdx, at := mount(c)
+	return &engine{root: vuego.NewFS(fsys), mems: mems, byIdx: byIdx, at: at}
+}
+
+func execute(c Case) result { return newEngine(c).render(c) }
+
+// render performs one render of the case's page on this engine (budgets apply per render).
+func (e *engine) render(c Case) (res result) {
+	for _, l := range e.mems {
+		l.ResetCounters()
+	}
+	layers := e.mems
 	data := map[string]any{"fd": fdVal}
 	if c.FillK != "" {
 		data["k"] = c.FillK
@@ -543,9 +576,9 @@ func execute(c Case) (res result) {
 		// no goroutine, no clock: non-termination shows up as an exhausted budget
 		switch c.Via {
 		case "renderfile":
-			res.err = assign(vuego.NewFS(m).Fill(fill)).RenderFile(context.Background(), w, c.Page.Path)
+			res.err = assign(e.root.New().Fill(fill)).RenderFile(context.Background(), w, c.Page.Path)
 		default:
-			res.err = assign(vuego.NewFS(m).Load(c.Page.Path).Fill(fill)).Render(context.Background(), w)
+			res.err = assign(e.root.Load(c.Page.Path).Fill(fill)).Render(context.Background(), w)
 		}
 	}()
 	res.out = w.Got
@@ -575,6 +608,9 @@ func short(b []byte) string {
 func check(c Case) error {
 	if c.Page.Path == "" {
 		return fmt.Errorf("bad case: no page")
+	}
+	if len(c.Steps) > 0 {
+		return checkHistory(c)
 	}
 	pl, res, err := checkOne(c)
 	if err != nil {
@@ -659,11 +695,17 @@ func viaConsistency(c Case, res result) error {
 
 // checkOne runs one render and applies the oracle to it.
 func checkOne(c Case) (plan, result, error) {
-	pl := walk(c)
 	res := execute(c)
+	pl, err := judgeAll(c, res)
+	return pl, res, err
+}
+
+// judgeAll applies the oracle to the result of one render of c.
+func judgeAll(c Case, res result) (plan, error) {
+	pl := walk(c)
 	err := judge(c, pl, res)
 	if err == nil || c.LayoutVia == "" || c.Page.Layout == "" {
-		return pl, res, err
+		return pl, err
 	}
 	// The layout name reaches the page through Fill / Assign instead of front-matter. The
 	// statement and the docs speak of the front-matter key only, so two readings are consistent:
@@ -675,9 +717,66 @@ func checkOne(c Case) (plan, result, error) {
 	d.Page.Layout, d.LayoutVia = "", ""
 	pl2 := walk(d)
 	if err2 := judge(d, pl2, res); err2 != nil {
-		return pl, res, fmt.Errorf("layout name %q supplied through %s: the result fits neither reading.\n as the page's layout: %v\n ignored (page names no layout): %v", c.Page.Layout, c.LayoutVia, err, err2)
+		return pl, fmt.Errorf("layout name %q supplied through %s: the result fits neither reading.\n as the page's layout: %v\n ignored (page names no layout): %v", c.Page.Layout, c.LayoutVia, err, err2)
 	}
-	return pl2, res, nil
+	return pl2, nil
+}
+
+// current returns the case as it stands after some files were removed: same description, only
+// the files still present.
+func current(c Case, gone map[string]bool) Case {
+	d := c
+	d.Steps = nil
+	d.Files = nil
+	for _, f := range c.Files {
+		if !gone[f.Path] {
+			d.Files = append(d.Files, f)
+		}
+	}
+	return d
+}
+
+// checkHistory runs the steps on one long-lived engine. Stale lower-layer copies are left out
+// of a history (removing the upper copy would legitimately reveal them).
+func checkHistory(c Case) error {
+	base := c
+	base.Steps = nil
+	if c.Overlay != nil {
+		o := *c.Overlay
+		o.Stale = nil
+		base.Overlay = &o
+	}
+	e := newEngine(base)
+	described := map[string]File{}
+	for _, f := range base.Files {
+		described[f.Path] = f
+	}
+	gone := map[string]bool{}
+	var trail []string
+	for si, st := range c.Steps {
+		f, ok := described[st.Path]
+		switch st.Op {
+		case "remove":
+			if ok && !gone[st.Path] {
+				e.byIdx[e.at[st.Path]].Remove(st.Path)
+				gone[st.Path] = true
+				trail = append(trail, "remove "+st.Path)
+			}
+		case "restore":
+			if ok && gone[st.Path] {
+				e.byIdx[e.at[st.Path]].Write(st.Path, source(f, false), time.Unix(int64(2000+si), 0))
+				delete(gone, st.Path)
+				trail = append(trail, "restore "+st.Path)
+			}
+		case "render":
+			cur := current(base, gone)
+			trail = append(trail, "render")
+			if _, err := judgeAll(cur, e.render(cur)); err != nil {
+				return fmt.Errorf("step %d of the history on one engine [%s]: %w", si, strings.Join(trail, "; "), err)
+			}
+		}
+	}
+	return nil
 }
 
 func judge(c Case, pl plan, res result) error {
@@ -928,6 +1027,9 @@ func classify(c Case) (bool, []string) {
 	if pl.nonStr {
 		cls = append(cls, "link:name-is-non-string-yaml-scalar")
 	}
+	if len(c.Steps) > 0 {
+		cls = append(cls, historyClasses(c)...)
+	}
 	switch c.FillKind {
 	case "struct":
 		cls = append(cls, "fill=struct")
@@ -1068,6 +1170,66 @@ func classify(c Case) (bool, []string) {
 	}
 	nt := layouts >= 2 || pl.out == oCycle || pl.ambiguous
 	return nt, cls
+}
+
+// historyClasses labels a history by what its removals / restores do to the expected chain.
+func historyClasses(c Case) []string {
+	set := map[string]bool{"history": true}
+	gone := map[string]bool{}
+	base := c
+	base.Steps = nil
+	var prev *plan
+	renders := 0
+	onChain := func(pl *plan, p string) bool {
+		if pl == nil {
+			return false
+		}
+		for _, f := range pl.chain[1:] {
+			if f.Path == p {
+				return true
+			}
+		}
+		return false
+	}
+	pending := ""
+	for _, st := range c.Steps {
+		switch st.Op {
+		case "remove":
+			gone[st.Path] = true
+			if onChain(prev, st.Path) {
+				if st.Path == basePath && prev.defaultDue {
+					pending = "history:default-base-removed-after-it-was-applied"
+				} else {
+					pending = "history:file-of-the-previous-chain-removed"
+				}
+			}
+		case "restore":
+			if gone[st.Path] {
+				delete(gone, st.Path)
+				if prev != nil {
+					pending = "history:file-restored-between-renders"
+				}
+			}
+		case "render":
+			pl := walk(current(base, gone))
+			renders++
+			if pending != "" {
+				set[pending] = true
+				pending = ""
+			}
+			if prev != nil && (prev.out != pl.out || len(prev.chain) != len(pl.chain)) {
+				set["history:expected-outcome-changes-between-renders"] = true
+			}
+			prev = &pl
+		}
+	}
+	set[fmt.Sprintf("history:renders=%d", min(renders, 5))] = true
+	var out []string
+	for k := range set {
+		out = append(out, k)
+	}
+	sort.Strings(out)
+	return out
 }
 
 // ---------------------------------------------------------------- generators
@@ -1334,6 +1496,16 @@ func genCase(t *rapid.T) Case {
 	if c.Page.Layout != "" {
 		c.LayoutVia = rapid.SampledFrom([]string{"", "", "", "", "fill", "assign"}).Draw(t, "layout.via")
 	}
+	// a history on one engine
+	if len(c.Files) > 0 && c.LayoutVia == "" && rapid.IntRange(0, 3).Draw(t, "history") == 0 {
+		c.Steps = []Step{{Op: "render"}}
+		n := rapid.IntRange(1, 3).Draw(t, "history.rounds")
+		for r := 0; r < n; r++ {
+			p := c.Files[rapid.IntRange(0, len(c.Files)-1).Draw(t, "history.file")].Path
+			op := rapid.SampledFrom([]string{"remove", "remove", "restore"}).Draw(t, "history.op")
+			c.Steps = append(c.Steps, Step{Op: op, Path: p}, Step{Op: "render"})
+		}
+	}
 	// storage
 	switch rapid.IntRange(0, 5).Draw(t, "fs") {
 	case 0, 1:
@@ -1458,6 +1630,38 @@ func spellings(s *stage) {
 			}
 		}
 	}
+}
+
+// histories: every graph over {layouts/a, pages/a, layouts/base} (names none / a / base) x page
+// {none, a, base} x every present layout file f: on ONE engine render, remove f, render, restore
+// f, render; every third history also removes a second file in between. Storage, Fill kind and
+// entry point rotate with the index.
+func histories(s *stage) {
+	names := []string{"", "a", "base"}
+	enumGraphs([]string{"layouts/a.vuego", "pages/a.vuego", basePath}, names, names, func(_ int, c Case) bool {
+		for j := range c.Files {
+			i := s.n
+			d := c
+			d.Files = append([]File(nil), c.Files...)
+			p := d.Files[j].Path
+			d.Steps = []Step{{Op: "render"}, {Op: "remove", Path: p}, {Op: "render"}}
+			if i%3 == 2 && len(d.Files) > 1 {
+				q := d.Files[(j+1)%len(d.Files)].Path
+				d.Steps = append(d.Steps, Step{Op: "remove", Path: q}, Step{Op: "render"}, Step{Op: "restore", Path: q})
+			}
+			d.Steps = append(d.Steps, Step{Op: "restore", Path: p}, Step{Op: "render"})
+			applyKMask(&d, (i*5+i/7)%(4<<len(d.Files)))
+			if i%2 == 1 {
+				d.Via = "renderfile"
+			}
+			rotateFS(&d, i)
+			rotateFill(&d, i/2)
+			if !s.yield(d) {
+				return false
+			}
+		}
+		return true
+	})
 }
 
 // fillKinds: chains of 1 and 2 layouts (also through the default rule) x every subset of k
@@ -1817,6 +2021,7 @@ func TestProp(t *testing.T) {
 		{"long", "synthetic chains of 6..150 layouts", longChains},
 		{"zone", "default-applied vs explicitly named base over chains of 93..106 templates", limitZone},
 		{"overlay", "all layout graphs over 3 files x 3 page options x every upper/lower split of the layout files", overlaySplits},
+		{"history", "all layout graphs over 3 files x 3 page options x each file removed and restored between renders on one engine", histories},
 		{"fill", "chains of 1-2 layouts x every subset of k sources x Fill as map/struct/pointer x 2 entry points", fillKinds},
 		{"spell", "one file of a 3-file chain in every line-ending x fence-blanks x body/front-matter-only spelling", spellings},
 		{"empty", "page layout key absent/empty in three spellings x base absent/present/continuing", emptyKeys},
